@@ -25,6 +25,7 @@ import (
 
 	"github.com/invopop/gobl"
 	"github.com/invopop/gobl/bill"
+	"github.com/invopop/gobl/cal"
 	"github.com/invopop/gobl/dsig"
 	"github.com/invopop/gobl/schema"
 	"github.com/invopop/yaml"
@@ -126,6 +127,21 @@ func runPipeline(data []byte) []crashStep {
 		_, err := env.Correct(bill.Credit, bill.WithReason("test"))
 		return err
 	})
+	call("CorrectCopy", func() error {
+		if _, ok := env.Extract().(*bill.Invoice); !ok {
+			return nil
+		}
+		_, err := env.Correct(bill.Debit, bill.WithReason("test"), bill.WithCopyTax(), bill.WithSeries("S"), bill.WithIssueDate(cal.MakeDate(2030, 1, 2)))
+		return err
+	})
+	call("CorrectData", func() error {
+		if _, ok := env.Extract().(*bill.Invoice); !ok {
+			return nil
+		}
+		_, err := env.Correct(bill.WithData([]byte(`{"type":"corrective","reason":"r","copy_tax":true,"ext":{"es-facturae-correction":"01"},"stamps":[{"prv":"sat-uuid","val":"x"},null]}`)))
+		return err
+	})
+	call("OptionsSchema", func() error { _, err := env.CorrectionOptionsSchema(); return err })
 	call("Replicate", func() error { _, err := env.Replicate(); return err })
 	call("Marshal", func() error {
 		if _, err := json.Marshal(env); err != nil {
@@ -375,6 +391,59 @@ func mutants(root map[string]any, plan []planItem) []mutant {
 		}
 	}
 	dupStrip(root, "")
+	// (d) an array element duplicated with a surcharge added to (or taken from) every percentage inside the copy,
+	// in both orders: rows that are merged or compared with each other then differ in exactly that member
+	var dupVary func(x any, path string)
+	dupVary = func(x any, path string) {
+		switch v := x.(type) {
+		case map[string]any:
+			for k, y := range v {
+				if a, ok := y.([]any); ok && len(a) > 0 {
+					if last, ok := a[len(a)-1].(map[string]any); ok {
+						cp := deepCopy(last).(map[string]any)
+						changed := false
+						var vary func(z any)
+						vary = func(z any) {
+							switch o := z.(type) {
+							case map[string]any:
+								if _, has := o["percent"]; has {
+									if _, hs := o["surcharge"]; hs {
+										delete(o, "surcharge")
+									} else if _, isTotal := o["base"]; isTotal {
+										o["surcharge"] = map[string]any{"percent": "5.2%", "amount": "1.00"}
+									} else {
+										o["surcharge"] = "5.2%"
+									}
+									changed = true
+								}
+								for _, w := range o {
+									vary(w)
+								}
+							case []any:
+								for _, w := range o {
+									vary(w)
+								}
+							}
+						}
+						vary(cp)
+						if changed {
+							v[k] = append(append([]any{}, a...), cp)
+							emit("dup-vary", path+"/"+k+"/+")
+							v[k] = append([]any{cp}, a...)
+							emit("dup-vary", path+"/"+k+"/-")
+							v[k] = a
+						}
+					}
+				}
+				dupVary(y, path+"/"+k)
+			}
+		case []any:
+			for i, y := range v {
+				dupVary(y, fmt.Sprintf("%s/%d", path, i))
+			}
+		}
+	}
+	dupVary(root, "")
 	// (b) pairs of mutations on identifying keys (regime / country / currency / addons / schema)
 	type pos struct {
 		set func(any)
@@ -490,7 +559,7 @@ func crashRun(repo, planFile string, seed int64, capPerDoc, nbytes int, bulkBin,
 			r.Shuffle(len(ms), func(i, j int) { ms[i], ms[j] = ms[j], ms[i] })
 			// keep a share of each family
 			var sel []mutant
-			quota := map[string]int{"pair": capPerDoc / 3, "dup-strip": capPerDoc / 3, "empty-signature": 3}
+			quota := map[string]int{"pair": capPerDoc / 3, "dup-strip": capPerDoc / 3, "empty-signature": 3, "dup-vary": 1000}
 			n := 0
 			for _, m := range ms {
 				if q, ok := quota[m.mut]; ok {
